@@ -81,6 +81,7 @@ def run(P, C, tier):
         # NodeToMutate{date: X, node: Some(new_node)} with new_node.mdate = X (same parameter)
         ok = False
         det = []
+        DATE = cn.the_local("the operation date of create_node_to_mutate", ty=r"^i64$", param=True)
         for bi in cn.live_blocks():
             for si, st in enumerate(cn.blocks[bi]["s"]):
                 rv = st["rv"]
@@ -88,24 +89,25 @@ def run(P, C, tier):
                     t = cn.def_term(bi, si, rv, 0)
                     d = t[4][t[5].index("date")]
                     det.append("NodeToMutate.date=%s" % term_str(d))
-                    if d[0] == "param" and d[1] == "date":
+                    if d[0] == "param" and d[1] == DATE:
                         ok = True
         md = False
-        for l, n in cn.names.items():
-            if n == "new_node":
+        for l, n, lty, leaf in cn.named_locals():
+            if re.search(r"node::Node$", lty):
                 for (bi, si, rv, lhs) in cn.defs().get(l, ()):
                     if lhs[1:] == [".mdate"]:
                         t = cn.def_term(bi, si, rv, 0)
-                        md = md or (t[0] == "param" and t[1] == "date")
+                        md = md or (t[0] == "param" and t[1] == DATE)
         C.ob("R3", "local-date-is-row-date", ok and md, cn.loc(), "updated row: mdate := date and decision date := the same parameter (%s, mdate=%s)" % (det, md))
         gm = P.body("MutationQuery::get_mutate_query")
         C.saw(gm)
         md2 = False
+        DATE2 = gm.the_local("the operation date of get_mutate_query", ty=r"^i64$", param=True)
         for bi in gm.live_blocks():
             for si, st in enumerate(gm.blocks[bi]["s"]):
                 if st["lhs"][-1:] == [".mdate"]:
                     t = gm.def_term(bi, si, st["rv"], 0)
-                    md2 = md2 or (t[0] == "param" and t[1] == "date")
+                    md2 = md2 or (t[0] == "param" and t[1] == DATE2)
         C.ob("R3", "local-date-final", md2, gm.loc(), "get_mutate_query stores node.mdate = date, the same date passed to create_node_to_mutate")
     except mir.MissingAnchor as e:
         C.anchor_missing("R3", "create_node_to_mutate", e)
